@@ -15,6 +15,18 @@ type PropSpec struct {
 }
 
 var properties = map[string]PropSpec{
+	"C02": {
+		Level: "other",
+		Explanation: "Structural clauses of the String() grammar, each a necessary condition whose violation changes the rendering. NOT: in the Stack branch of defaultAssertionHandler every stack-level reading (kind, symbol, rendering) is made on the nested, converted Stack - never on the enclosing one; the NOT word is prefixed only on paths where the nested kind is NOT, it has no symbol and its rendering is non-empty (an empty nested stack contributes nothing: no dangling operator), and the word is exactly the one typ() of the nested stack returned, i.e. in the NOT stack's own case. EMPTY: stack.string collects renderings only by append(list, val) under len(val) > 0 for the very value defaultAssertionHandler returned for slot i (i = 1, 2, ... in stored order) and hands exactly that list to the assembler, so BASIC stacks, empty stacks and invalid Conditions (which render to the empty string) leave no dangling operator or delimiter. UTF8: condenseWHSP ranges over runes, writes every rune except blank (32) and tab (9) unchanged, writes one blank only for a blank or tab and uses no Unicode class test - leaf text of any script is reproduced verbatim. ENCAP: encapValue walks the pair list from the last pair to the first and wraps the value built so far as L+v+R or c+v+c, so the first configured pair ends up outermost; Condition expressions pass through it on every rendering path (R-ENCAP in C06). PAREN: stack.paren wraps exactly when the parenthetical bit is set and the kind is not BASIC (table over both atoms), with the same padding left and right. Rendering is gated by canString (valid and kind not BASIC) and the presentation policy dispatch (C14); option polarity of the getters is C18.",
+		NotDecided: "equality of the produced string with the canonical rendering over trees x option combinations (joining by word/symbol/delimiter, lead-once layout, symbol padding): string-valued functional correctness, out of reach of a static argument here.",
+		Run: func(c *Ctx) {
+			c.ruleInv()
+			c.ruleStr()
+			c.ruleCondStringEncap()
+			c.rep.floor("R-STR", 5)
+			c.rep.floor("R-ENCAP", 1)
+		},
+	},
 	"C10": {
 		Level: "other",
 		Explanation: "R-LOCK: the lock discipline that atomicity of the eight content mutators needs, decided on the SSA of everything reachable from Push, Pop, Insert, Remove, Replace, Swap, Reverse and Reset. L1: every store of a slice header or an element slot in that scope lies in the held region (CFG-reachable from lock() without passing unlock(), and dominated by the lock()) of the lock of the very stack it writes, or in a function all of whose call sites - transitively - lie in such regions. L2: (a) a function that locks its receiver does not use it before the acquisition, so no validation (emptiness, bounds, capacity) can be stale; (b) the capacity invariant (R-CAP), the configuration-slot invariant (R-SLOT0) and the list-operation specifications (R-SEQ) are re-proved in concurrent mode, in which acquiring a lock forgets everything known about shared memory - so the guards protecting each write are evaluated inside the same critical section as the write (capacity never exceeded, configuration never returned or removed, Pop on a stack emptied by a competitor returns (nil,false)). L3: the lock bookkeeping (nodeConfig.ldr) is written after Mutex.Lock and before Mutex.Unlock. L4: nothing called while a lock is held locks the same stack again (self-deadlock; lock summaries rooted at parameters, whole package), and every lock() is followed at once by a deferred unlock() or by an unlock() on every path to a return (no leaked lock). L5: reads of the shared configuration slot made without any lock - the exported wrappers' IsInit/IsEmpty/getState pre-checks and lock()'s own lookup of the mutex - are reported; they are genuine data races (the mutex lives inside slot 0 of the data it protects) and are listed as known findings.",
